@@ -43,8 +43,35 @@ def _rebind(original, replacement):
     return n
 
 
+UNAVAILABLE = []  # contracts that could not be attached (the function is gone or has another signature): reported, never fatal
+
+
+def safe(fn):
+    """a condition must never disturb the execution it observes: internal errors are counted and swallowed"""
+    import functools
+
+    @functools.wraps(fn)
+    def wrapper(*a, **k):
+        try:
+            return fn(*a, **k)
+        except Exception:  # noqa: BLE001
+            EVALS[fn.__name__ + ".monitor_error"] += 1
+            return True
+
+    return wrapper
+
+
+def _attach(name, fn):
+    try:
+        return fn() or 0
+    except Exception as e:  # noqa: BLE001
+        UNAVAILABLE.append(f"{name}: {type(e).__name__}: {str(e)[:120]}")
+        return 0
+
+
 # ---- conditions (named functions; argument names match the decorated function's) ---------
 
+@safe
 def read_chunk_pre(f, offset, size):
     EVALS["read_chunk.pre"] += 1
     if not (isinstance(offset, (int, np.integer)) and offset >= 0 and size >= 0):
@@ -52,6 +79,7 @@ def read_chunk_pre(f, offset, size):
     return True
 
 
+@safe
 def read_chunk_post(f, offset, size, result):
     EVALS["read_chunk.post"] += 1
     if len(result) != size:
@@ -59,6 +87,7 @@ def read_chunk_post(f, offset, size, result):
     return True
 
 
+@safe
 def getitem_post(self, indexers, result):
     EVALS["Array.__getitem__.post"] += 1
     try:
@@ -73,6 +102,7 @@ def getitem_post(self, indexers, result):
     return True
 
 
+@safe
 def chunk_offsets_post(byte_ranges, chunks, result):
     EVALS["compute_chunk_offsets.post"] += 1
     prev_end = None
@@ -91,6 +121,7 @@ def chunk_offsets_post(byte_ranges, chunks, result):
     return True
 
 
+@safe
 def parse_chunk_post(content, element_size, result):
     EVALS["parse_chunk.post"] += 1
     if len(result) != len(content) // element_size:
@@ -98,6 +129,7 @@ def parse_chunk_post(content, element_size, result):
     return True
 
 
+@safe
 def read_metadata_post(result):
     EVALS["read_metadata.post"] += 1
     header, metadata = result
@@ -120,6 +152,7 @@ def read_metadata_post(result):
     return True
 
 
+@safe
 def wrapper_inv(self):
     EVALS["LazilyIndexedWrapper.inv"] += 1
     if not isinstance(self.dtype, np.dtype) or tuple(self.shape) != tuple(self.array.shape):
@@ -127,6 +160,7 @@ def wrapper_inv(self):
     return True
 
 
+@safe
 def group_inv(self):
     EVALS["Group.inv"] += 1
     import posixpath
@@ -140,6 +174,7 @@ def group_inv(self):
     return True
 
 
+@safe
 def ydms_post(obj, result):
     EVALS["DatetimeYdms.post"] += 1
     import datetime
@@ -154,57 +189,99 @@ def ydms_post(obj, result):
 
 
 def install():
-    """idempotent; returns number of rebinding sites"""
+    """idempotent; returns number of rebinding sites.  Every contract is attached on its own: a function that was renamed,
+    removed or re-signatured makes that one contract unavailable (listed in UNAVAILABLE), nothing else."""
     global _installed
     if _installed:
         return 0
     try:
         import icontract
     except Exception:
+        UNAVAILABLE.append("icontract is not installed")
         return 0
     _installed = True
     import ceos_alos2  # noqa: F401
-    from ceos_alos2 import array, datatypes, hierarchy
-    from ceos_alos2 import xarray as cxarray
-    from ceos_alos2.sar_image import io as sio
 
-    sites = 0
     E = ContractBroken
-    f = array.read_chunk
-    g = icontract.require(read_chunk_pre, error=E)(icontract.ensure(read_chunk_post, error=E)(f))
-    sites += _rebind(f, g)
-    f = array.compute_chunk_offsets
-    sites += _rebind(f, icontract.ensure(chunk_offsets_post, error=E)(f))
-    f = sio.parse_chunk
-    sites += _rebind(f, icontract.ensure(parse_chunk_post, error=E)(f))
-    f = sio.read_metadata
-    sites += _rebind(f, icontract.ensure(read_metadata_post, error=E)(f))
-    array.Array.__getitem__ = icontract.ensure(getitem_post, error=E)(array.Array.__getitem__)
-    datatypes.DatetimeYdms._decode = icontract.ensure(ydms_post, error=E)(datatypes.DatetimeYdms._decode)
-    sites += 2
+
+    def c_read_chunk():
+        from ceos_alos2 import array
+
+        f = array.read_chunk
+        return _rebind(f, icontract.require(read_chunk_pre, error=E)(icontract.ensure(read_chunk_post, error=E)(f)))
+
+    def c_chunk_offsets():
+        from ceos_alos2 import array
+
+        f = array.compute_chunk_offsets
+        return _rebind(f, icontract.ensure(chunk_offsets_post, error=E)(f))
+
+    def c_parse_chunk():
+        from ceos_alos2.sar_image import io as sio
+
+        f = sio.parse_chunk
+        return _rebind(f, icontract.ensure(parse_chunk_post, error=E)(f))
+
+    def c_read_metadata():
+        from ceos_alos2.sar_image import io as sio
+
+        f = sio.read_metadata
+        return _rebind(f, icontract.ensure(read_metadata_post, error=E)(f))
+
+    def c_getitem():
+        from ceos_alos2 import array
+
+        array.Array.__getitem__ = icontract.ensure(getitem_post, error=E)(array.Array.__getitem__)
+        return 1
+
+    def c_ydms():
+        from ceos_alos2 import datatypes
+
+        datatypes.DatetimeYdms._decode = icontract.ensure(ydms_post, error=E)(datatypes.DatetimeYdms._decode)
+        return 1
+
     # invariants evaluated after __init__ (explicit wrappers: the dataclass/BackendArray bases
     # are not icontract.DBC classes, and icontract.invariant on Mapping subclasses wraps every
     # dunder — too intrusive; the hook shape 'assert after construction' is what we want)
-    orig_w = cxarray.LazilyIndexedWrapper.__init__
+    def c_wrapper():
+        from ceos_alos2 import xarray as cxarray
 
-    def w_init(self, *a, **k):
-        orig_w(self, *a, **k)
-        wrapper_inv(self)
+        orig_w = cxarray.LazilyIndexedWrapper.__init__
 
-    cxarray.LazilyIndexedWrapper.__init__ = w_init
-    orig_g = hierarchy.Group.__post_init__
+        def w_init(self, *a, **k):
+            orig_w(self, *a, **k)
+            wrapper_inv(self)
 
-    def g_post(self):
-        orig_g(self)
-        group_inv(self)
+        cxarray.LazilyIndexedWrapper.__init__ = w_init
+        return 1
 
-    hierarchy.Group.__post_init__ = g_post
-    orig_set = hierarchy.Group.__setitem__
+    def c_group():
+        from ceos_alos2 import hierarchy
 
-    def g_set(self, item, value):
-        orig_set(self, item, value)
-        group_inv(self)
+        orig_g = hierarchy.Group.__post_init__
 
-    hierarchy.Group.__setitem__ = g_set
-    sites += 3
+        def g_post(self, *a, **k):
+            orig_g(self, *a, **k)
+            group_inv(self)
+
+        hierarchy.Group.__post_init__ = g_post
+        orig_set = hierarchy.Group.__setitem__
+
+        def g_set(self, item, value):
+            orig_set(self, item, value)
+            group_inv(self)
+
+        hierarchy.Group.__setitem__ = g_set
+        return 2
+
+    sites = 0
+    for name, fn in (("read_chunk", c_read_chunk), ("compute_chunk_offsets", c_chunk_offsets), ("parse_chunk", c_parse_chunk),
+                     ("read_metadata", c_read_metadata), ("Array.__getitem__", c_getitem), ("DatetimeYdms._decode", c_ydms),
+                     ("LazilyIndexedWrapper", c_wrapper), ("Group", c_group)):
+        sites += _attach(name, fn)
     return sites
+
+
+def ok():
+    """contracts either observed something or could not be attached at all (a refactoring took their anchor away)"""
+    return sum(v for k, v in EVALS.items() if not k.endswith(".monitor_error")) > 0 or bool(UNAVAILABLE)
